@@ -165,7 +165,9 @@ def replay_dot(case):
     from ..matlib import quote
 
     # a column counts as used on the left-hand side however it is used there: by name, or inside a python expression
-    wrap = (lambda v: "{" + quote(v) + " + 0}") if sum(map(len, cols)) % 2 == 0 or cols[0] == "y" else quote
+    # (by name / inside an arithmetic expression / through attribute access)
+    how = (sum(map(ord, "".join(cols))) + len(lhs)) % 3
+    wrap = [quote, (lambda v: "{" + quote(v) + " + 0}"), (lambda v: "{" + quote(v) + ".T}")][how]
     formula = (" + ".join(wrap(v) for v in lhs) + " ~ 0 + .") if lhs else "0 + ."
     base = {"formula": formula, "columns": cols}
     bad = []
